@@ -211,7 +211,9 @@ pub fn bch(texs: &[Tex], rng: &mut Rng, shuffle: bool, new_header: bool) -> Buil
     let hdr_len = if new_header { 0x44 } else { 0x3C };
     let mut img: Vec<u8> = vec![0; hdr_len];
     img[0..4].copy_from_slice(&0x0048_4342u32.to_le_bytes());
-    img[4] = if new_header { 0x21 } else { 7 };
+    // backward-compatibility byte: the extended header (two more words) is present exactly when it
+    // is greater than 20; both sides of that threshold are used, the exact neighbours included
+    img[4] = if new_header { *rng.pick(&[21u8, 22, 0x21, 0x30, 0xFF]) } else { *rng.pick(&[0u8, 7, 19, 20]) };
     let mut order: Vec<usize> = vec![0, 1, 2, 3];
     if shuffle {
         rng.shuffle(&mut order);
